@@ -85,7 +85,8 @@ func asInt(d any) (int64, error) {
 		var i int64
 		intType := reflect.TypeOf(i)
 		dValue := reflect.ValueOf(d)
-		if !dValue.CanConvert(intType) {
+		// An untyped nil gives the zero reflect.Value, on which CanConvert panics.
+		if !dValue.IsValid() || !dValue.CanConvert(intType) {
 			return 0, &ConstraintError{
 				Message: fmt.Sprintf("%T is not a valid data type for an int schema.", d),
 			}
